@@ -227,6 +227,8 @@ pub struct Server {
     pub violations: Vec<Violation>,
     /// per cache key: size of the last Block2 the server sent (C10 premise)
     pub last_b2_size: BTreeMap<(Ep, Key), usize>,
+    /// token length on the fresh response for which that size was chosen
+    pub last_b2_toklen: BTreeMap<(Ep, Key), usize>,
     pub dead: bool,
     /// (arrival seq, entries held after it) when cfg.record_held
     pub held_log: Vec<(usize, Vec<(Ep, u8, Vec<String>)>)>,
@@ -379,7 +381,7 @@ impl Server {
             max_total_message_size: cfg.budget,
             cache_expiry_duration: Duration::from_nanos(cfg.expiry_ns),
         });
-        Server { cfg, handler, app: App::new(), log: Vec::new(), violations: Vec::new(), last_b2_size: BTreeMap::new(), dead: false, held_log: Vec::new(), tick: 0 }
+        Server { cfg, handler, app: App::new(), log: Vec::new(), violations: Vec::new(), last_b2_size: BTreeMap::new(), last_b2_toklen: BTreeMap::new(), dead: false, held_log: Vec::new(), tick: 0 }
     }
 
     #[cfg(feature = "hooks")]
@@ -1012,6 +1014,7 @@ impl Server {
         if let (Some((_, _, s)), true) = (r_b2, arr.app.is_some()) {
             // a fresh response: the size the server chose itself
             self.last_b2_size.insert((from, b2key.clone()), szx_size(s));
+            self.last_b2_toklen.insert((from, b2key.clone()), resp.message.get_token().len());
         }
         if arr.app.is_some() {
             // the application's reply went through intercept_response
@@ -1075,7 +1078,14 @@ impl Server {
                     // reference for what follows
                     self.last_b2_size.insert((from, b2key.clone()), size);
                 }
-                if !raised && m <= 1280 && m >= ov_upper + 28 {
+                // the size was chosen against the overhead of the first
+                // response; a client that lengthens its token afterwards has
+                // changed the overhead the choice was made for
+                let longer_token = self.last_b2_toklen.get(&(from, b2key.clone())).map_or(false, |&l| resp.message.get_token().len() > l);
+                if longer_token {
+                    stats.hit("c10.cached.out-of-premise.longer-token");
+                }
+                if !raised && !longer_token && m <= 1280 && m >= ov_upper + 28 {
                     stats.hit("c10.cached.fits.checked");
                     if reply.len() > m {
                         self.violations.push(Violation::new("C10", "fits", format!("cached block encodes to {} > budget {}", reply.len(), m)));
